@@ -158,6 +158,53 @@ def _c15_checks(d, h, mi, s):
     return None
 
 
+def _c15_safe(d, h, mi, s):
+    try:
+        r = _c15_checks(d, h, mi, s)
+    except Exception as exc:  # noqa: BLE001
+        r = {"clause": "a conversion raised %r" % (exc,), "datetime": "%s %02d:%02d:%02d" % (d, h, mi, s)}
+    if r is not None:
+        r["args"] = {"date": d.isoformat(), "h": h, "m": mi, "s": s}
+    return r
+
+
+def seed_C15(m):
+    """the date/time a mismatching conversion was asked about, and its neighbours"""
+    import re
+    inp = m.get("input") or {}
+    txt = " ".join(str(inp.get(k, "")) for k in ("from", "datetime", "date"))
+    mm = re.search(r"(\d{4})-(\d{2})-(\d{2})(?:[ T](\d{2}):(\d{2}):(\d{2}))?", txt)
+    if not mm:
+        return None
+    d = datetime.date(int(mm.group(1)), int(mm.group(2)), int(mm.group(3)))
+    h, mi, s = (int(mm.group(4)), int(mm.group(5)), int(mm.group(6))) if mm.group(4) else (12, 0, 0)
+    off = re.search(r"([+-])(\d{2}):(\d{2})\s*$", str(inp.get("datetime", "")))
+    if off and mm.group(4):
+        # an aware spelling: the Julian day is read from its own wall-clock fields, whatever
+        # was asked before (evaluated in the state the sequence of calls has produced)
+        from astral import julian as J
+        mins = (int(off.group(2)) * 60 + int(off.group(3))) * (1 if off.group(1) == "+" else -1)
+        sp = datetime.datetime(d.year, d.month, d.day, h, mi, s,
+                               tzinfo=datetime.timezone(datetime.timedelta(minutes=mins)))
+        want = d.toordinal() + 1721424.5 + (h * 3600 + mi * 60 + s) / 86400
+        try:
+            got = J.julianday(sp)
+        except Exception as exc:  # noqa: BLE001
+            got = repr(exc)
+        if not (isinstance(got, float) and abs(got - want) < 1e-8):
+            return {"clause": "JD = day count + 1721424.5 + seconds/86400 of the datetime's own fields",
+                    "datetime": sp.isoformat(), "got": got, "want": want,
+                    "args": {"date": d.isoformat(), "h": h, "m": mi, "s": s, "offset_minutes": mins}}
+    for dd in (0, -1, 1):
+        o = d.toordinal() + dd
+        if 1 <= o <= 3652059:
+            for t in ((h, mi, s), (0, 0, 0), (23, 59, 59)):
+                r = _c15_safe(datetime.date.fromordinal(o), *t)
+                if r:
+                    return r
+    return None
+
+
 def search_C15(rng, deadline, broken):
     specials = [datetime.date(2020, 1, 1), datetime.date(1582, 10, 15), datetime.date(1, 1, 1),
                 datetime.date(9999, 12, 31), datetime.date(2000, 2, 29), datetime.date(1900, 3, 1),
@@ -171,9 +218,8 @@ def search_C15(rng, deadline, broken):
         i += 1
         h, mi, s = rng.choice([(12, 0, 0), (0, 0, 0), (23, 59, 59),
                                (rng.randint(0, 23), rng.randint(0, 59), rng.randint(0, 59))])
-        r = _c15_checks(d, h, mi, s)
+        r = _c15_safe(d, h, mi, s)
         if r is not None:
-            r["args"] = {"date": d.isoformat(), "h": h, "m": mi, "s": s}
             return r
         if i > 400000:
             break
@@ -182,7 +228,22 @@ def search_C15(rng, deadline, broken):
 
 def replay_C15(fi):
     a = fi["args"]
-    return _c15_checks(datetime.date.fromisoformat(a["date"]), a["h"], a["m"], a["s"]) is None
+    if "offset_minutes" in a:
+        # state-dependent: spell the same instant in other zones first, then ask again
+        from astral import julian as J
+        d = datetime.date.fromisoformat(a["date"])
+        sp = datetime.datetime(d.year, d.month, d.day, a["h"], a["m"], a["s"],
+                               tzinfo=datetime.timezone(datetime.timedelta(minutes=a["offset_minutes"])))
+        want = d.toordinal() + 1721424.5 + (a["h"] * 3600 + a["m"] * 60 + a["s"]) / 86400
+        for other in (0, 330, -480, 765, -210):
+            try:
+                J.julianday(sp.astimezone(datetime.timezone(datetime.timedelta(minutes=other))))
+                if abs(J.julianday(sp) - want) >= 1e-8:
+                    return False
+            except Exception:  # noqa: BLE001
+                return False
+        return True
+    return _c15_safe(datetime.date.fromisoformat(a["date"]), a["h"], a["m"], a["s"]) is None
 
 
 # ------------------------------------------------------------------ shared helpers
@@ -875,9 +936,75 @@ def _rand_event_spec(rng):
         rng.random() < 0.6
 
 
+class _PlainZone:
+    def __init__(self, tzinfo, label):
+        self.tzinfo = tzinfo
+        self.label = label
+
+    def describe(self):
+        return self.label
+
+
+def _c01_via_location(seed):
+    """the object-oriented path: a Location used for several calls in a row; each returned
+    instant is judged against the observer that call was asked for"""
+    import zoneinfo
+    rng = random.Random(seed)
+    from astral import LocationInfo, Observer, SunDirection
+    from astral.location import Location
+    tzn = rng.choice(["Europe/London", "Asia/Tokyo", "America/New_York", "Asia/Kolkata", "UTC"])
+    loc = Location(LocationInfo("n", "r", tzn, rng.uniform(-60, 60), rng.uniform(-180, 180)))
+    d = datetime.date.fromordinal(rng.randint(693596, 767010))
+    hist = []
+    for _ in range(rng.randint(2, 5)):
+        k = rng.choice(["sunrise", "sunset", "dawn", "dusk", "tae", "setlon", "setlat"])
+        local = rng.random() < 0.5
+        z = _PlainZone(zoneinfo.ZoneInfo(tzn), tzn) if local else _PlainZone(datetime.timezone.utc, "UTC")
+        elev = rng.choice([0.0, rng.uniform(0, 4000.0)])
+        try:
+            if k == "setlon":
+                loc.longitude = rng.uniform(-180, 180)
+                hist.append("longitude=%r" % loc.longitude)
+                continue
+            if k == "setlat":
+                loc.latitude = rng.uniform(-60, 60)
+                hist.append("latitude=%r" % loc.latitude)
+                continue
+            if k == "tae":
+                e = rng.uniform(-5, 20)
+                rising = rng.random() < 0.5
+                hist.append("time_at_elevation(%r, %s, rising=%s, local=%s)" % (e, d, rising, local))
+                t = loc.time_at_elevation(e, d, SunDirection.RISING if rising else SunDirection.SETTING, local)
+                r = _c01_event(Observer(loc.latitude, loc.longitude, 0.0), d, z, "tae", e, rising, True, ("ok", t))
+            else:
+                rising = k in ("sunrise", "dawn")
+                hist.append("%s(%s, local=%s, observer_elevation=%r)" % (k, d, local, elev))
+                t = getattr(loc, k)(d, local, elev)
+                dep = loc.solar_depression
+                r = _c01_event(Observer(loc.latitude, loc.longitude, elev), d, z,
+                               "rise_set" if k in ("sunrise", "sunset") else "dawn_dusk",
+                               None if k in ("sunrise", "sunset") else float(dep), rising, True, ("ok", t))
+        except ValueError:
+            continue
+        if r:
+            return {"clause": r, "via": "astral.location.Location", "timezone": tzn,
+                    "sequence": list(hist), "location_seed": seed}
+    return None
+
+
 def search_C01(rng, deadline, broken):
     import gens
+    n = 0
     while time.time() < deadline:
+        n += 1
+        if n % 4 == 0:
+            ls = rng.randrange(1 << 40)
+            try:
+                r = _c01_via_location(ls)
+            except Exception as exc:  # noqa: BLE001
+                r = {"clause": "raised %r" % (exc,), "via": "astral.location.Location", "location_seed": ls}
+            if r:
+                return r
         o, d, z = _sun_inputs(rng)
         if isinstance(o.elevation, tuple) or abs(o.latitude) > 89.8:
             continue                           # tuple form: KF-FEATURE (C10); beyond ±89.8: clamped
@@ -892,6 +1019,11 @@ def search_C01(rng, deadline, broken):
 
 
 def replay_C01(fi):
+    if fi.get("via"):
+        try:
+            return _c01_via_location(fi["location_seed"]) is None
+        except Exception:  # noqa: BLE001
+            return False
     return _c01_event(_obs_from_descr(fi["observer"]), datetime.date.fromisoformat(fi["date"]),
                       _zone_from_descr(fi["zone"]), fi["function"], fi["arg"], fi["rising"],
                       fi["with_refraction"]) is None
@@ -1197,11 +1329,12 @@ def replay_C11(fi):
 
 
 # ------------------------------------------------------------------ C12
-def _c12_one(lat, lon, naive_utc, z):
+def _c12_one(lat, lon, naive_utc, z, o=None):
     import astral.moon as moon
     from astral import Observer
-    from oracle import moon_almanac as M
-    o = Observer(lat, lon)
+    from oracle import moon_meeus as M
+    if o is None:
+        o = Observer(lat, lon)
     u = naive_utc.replace(tzinfo=datetime.timezone.utc)
     loc = u.astimezone(z.tzinfo)
     az, el, ze = moon.azimuth(o, naive_utc), moon.elevation(o, naive_utc), moon.zenith(o, naive_utc)
@@ -1221,9 +1354,14 @@ def _c12_one(lat, lon, naive_utc, z):
                 return "%s %r for %s differs from %r for the same instant as naive UTC" % (
                     name, v, spelled.isoformat(), ref)
     alt, aaz = M.alt_az(lat, lon, u)
-    # geocentric low-precision oracle: parallax (≤ 1°) + 0.3° series error → sanity bound 1.6°
-    if abs(alt - el) > 1.6:
-        return "elevation %.3f vs independent lunar formulae %.3f" % (el, alt)
+    # Meeus ch. 47 (another lunar theory); residual on the unchanged tree ≤ 0.021° over 40 000
+    # random observers and instants incl. the poles — the property's 0.05° is used as it stands
+    if abs(alt - el) > 0.05:
+        return "elevation %.4f vs independent lunar ephemeris %.4f (0.05 deg)" % (el, alt)
+    daz = abs((az - aaz + 180.0) % 360.0 - 180.0) * math.cos(math.radians(alt))
+    if daz > 0.05:
+        return "azimuth %.4f vs independent lunar ephemeris %.4f (scaled difference %.4f > 0.05)" % (
+            az, aaz, daz)
     return None
 
 
@@ -1422,6 +1560,18 @@ def seed_C12(m):
     r = _angle_spelling_check(getattr(moon, fn), o, dt, fn)
     if r:
         return {"clause": r, "input": inp}
+    live = (m.get("live") or {}).get("observer")
+    u = dt if dt.tzinfo is None else dt.astimezone(datetime.timezone.utc).replace(tzinfo=None)
+    import zones
+    for ob in ([live] if live is not None else []) + [None]:
+        try:
+            r = _c12_one(inp["latitude"], inp["longitude"], u, zones.fixed(0), ob)
+        except Exception as exc:  # noqa: BLE001
+            r = "raised %r" % (exc,)
+        if r:
+            return {"clause": r, "latitude": inp["latitude"], "longitude": inp["longitude"],
+                    "utc": u.isoformat(), "zone": "fixed+0",
+                    "observer_object": "the object of that call sequence" if ob is not None else "fresh"}
     return None
 
 
